@@ -12,6 +12,8 @@ pub struct Sut {
     /// template ids the application removed from a public cache map: (number of ops before it,
     /// parser, map name, id) - replayed in order with the parse_bytes calls
     pub evictions: Vec<(usize, usize, &'static str, u16)>,
+    /// cache entries the application moved to another key: (ops before it, parser, map, id, new key)
+    pub rekeys: Vec<(usize, usize, &'static str, u16, u16)>,
     /// allowed_versions reassigned by the application: (number of ops before it, parser, new set as
     /// sorted list; more than 64 members = all 65536)
     pub reconfigs: Vec<(usize, usize, Vec<u16>)>,
@@ -23,7 +25,7 @@ pub struct Sut {
 
 impl Sut {
     pub fn new(n: usize) -> Sut {
-        Sut { parsers: (0..n).map(|_| NetflowParser::default()).collect(), ops: vec![], evictions: vec![], reconfigs: vec![], initial_allowed: vec![], calls: 0, bytes: 0 }
+        Sut { parsers: (0..n).map(|_| NetflowParser::default()).collect(), ops: vec![], evictions: vec![], rekeys: vec![], reconfigs: vec![], initial_allowed: vec![], calls: 0, bytes: 0 }
     }
     /// The application removes one id from one of the public cache maps (as a collector that
     /// expires templates does). Returns whether the id was present.
@@ -44,6 +46,11 @@ impl Sut {
         let mut v: Vec<u16> = self.parsers[p].allowed_versions.iter().cloned().collect();
         v.sort();
         self.reconfigs.push((self.ops.len(), p, v));
+    }
+    /// The application files a cached template under another key of the public map.
+    pub fn rekey(&mut self, p: usize, map: &'static str, id: u16, to: u16) -> bool {
+        self.rekeys.push((self.ops.len(), p, map, id, to));
+        rekey_in(&mut self.parsers[p], map, id, to)
     }
     pub fn evict(&mut self, p: usize, map: &'static str, id: u16) -> bool {
         self.evictions.push((self.ops.len(), p, map, id));
@@ -71,6 +78,9 @@ impl Sut {
         for (i, (p, b)) in self.ops.iter().enumerate() {
             for e in self.evictions.iter().filter(|e| e.0 == i) {
                 ops.push(json!({"parser": e.1, "evict": {"map": e.2, "id": e.3}}));
+            }
+            for e in self.rekeys.iter().filter(|e| e.0 == i) {
+                ops.push(json!({"parser": e.1, "rekey": {"map": e.2, "id": e.3, "to": e.4}}));
             }
             for e in self.reconfigs.iter().filter(|e| e.0 == i) {
                 ops.push(json!({"parser": e.1, "allowed": if e.2.len() > 64 { json!("all-65536") } else { json!(e.2) }}));
@@ -100,6 +110,17 @@ impl Sut {
             "parsers": self.parsers.iter().enumerate().map(|(i, p)| initial(i, p)).collect::<Vec<_>>(),
             "ops": ops,
         })
+    }
+}
+
+/// Move an entry of a public cache map to another key (the entry keeps its own template_id).
+pub fn rekey_in(p: &mut NetflowParser, map: &str, id: u16, to: u16) -> bool {
+    match map {
+        "v9.templates" => p.v9_parser.templates.remove(&id).map(|t| p.v9_parser.templates.insert(to, t)).is_some(),
+        "v9.options_templates" => p.v9_parser.options_templates.remove(&id).map(|t| p.v9_parser.options_templates.insert(to, t)).is_some(),
+        "ipfix.templates" => p.ipfix_parser.templates.remove(&id).map(|t| p.ipfix_parser.templates.insert(to, t)).is_some(),
+        "ipfix.options_templates" => p.ipfix_parser.options_templates.remove(&id).map(|t| p.ipfix_parser.options_templates.insert(to, t)).is_some(),
+        _ => false,
     }
 }
 
